@@ -281,8 +281,8 @@ func init() {
 			"decoding garbage may return an error, bytes, or panic (recovered by the harness): only a Decode that does not return (20 s) or an effect on later calls is a violation",
 			"the schedule clause (several goroutines on one codec value) is explored under C15's scheduler scenario S8",
 		},
-		Bound:  func(string) int { return 0 },
-		Run:    c20Run,
+		Bound:    func(string) int { return 0 },
+		Run:      c20Run,
 		Risky:    true,
 		Shards:   8,
 		MemLimit: 4 << 30,
